@@ -8,6 +8,16 @@ CLAIMED = {
    note="Trusted: Coq kernel + vm_compute; the 100-line AST translator (cross-checked exhaustively against the real methods on every run); call sites found syntactically; the threaded lock is an AST fact, real threads are exercised only as supporting evidence. All theorems: Closed under the global context.",
    technique="Rocq proof by induction over call lists on AST-translated model + exhaustive vm_compute correspondence",
    design="3/C16"),
+ "C02": dict(
+   text="Machine-checked proof over a hand-written executable model of GeckoStructAccessor (derivation of length/format/mask, raw read, decode, encode, read-modify-write, device write applied to a block): for ANY block, field geometry and value, write-then-read returns the value, every byte outside the item and every bit of its word outside [bitpos,bitpos+width) is unchanged, read-only items refuse, string forms give the same write; instantiated for every item of all 151 regenerated cfg/log tables through a per-module vm_compute obligation (item_ok, incl. derive(decl) = the shape the REAL constructor computed). Correspondence: every distinct declared shape of the shipped tables x field patterns x domain values through the real sync and async setters on both structure classes vs the model (about 5,600 cases, vm_compute).",
+   note="Trusted: Coq kernel + vm_compute; the table extractor (imports the modules, records constructor arguments by wrapping __init__); the correspondence driver; struct big-endian pack/unpack and int() as modelled. Item-level isolation is stated at bit level (291 shipped neighbour pairs overlap in bits by design). Known findings K2 (two items with 61 labels on a 4-/1-bit field) are carried as an explicit exception list (TableWf.known_bad) so any new exception breaks the proof. Closed under the global context.",
+   technique="Rocq proof (bitwise lemmas via Z.testbit, list splice lemmas) + per-table vm_compute obligations + differential correspondence",
+   design="3/C02"),
+ "C18": dict(
+   text="Finite and complete: all 164 table modules (20,505 items) are regenerated from the working tree as Coq data on every run; Coq proves by vm_compute per module that every item is addressable (bytes in block, bit field in bytes, labels representable, derived shape = model derivation), every advertised key resolves, tags unique, module names agree with platform/version, and that every module of the layout pinned at the audited commit (coq/Pinned, committed) is present with an identical layout (positions, widths, bit positions, masks, labels, writability, refresh window).",
+   note="Trusted: Coq kernel + vm_compute; the table extractor; Pinned/ generated once from commit 236b7b1. Known findings K1/K2 are the explicit exception list TableWf.known_bad; the unrestricted statement is proved false (c18_all_items_addressable_refuted). FILES-reply naming is covered in C04's codec model.",
+   technique="Rocq: regenerated tables as Gallina data, forallb obligations closed by vm_compute and lifted with forallb_forall",
+   design="3/C18"),
 }
 
 REASON_PENDING = "check not built yet in this round (model and correspondence under construction; see DESIGN.md section 8)"
